@@ -23,9 +23,18 @@ def cls_by_name(qual):
     return getattr(importlib.import_module(mod), name)
 
 
+def fresh(v):
+    """a string EQUAL to v but a different object from every literal/constant of the library (what a parser hands over:
+    code that compares with `is` instead of `==` behaves differently on it)"""
+    if isinstance(v, str) and len(v) > 1:
+        w = (v + "\x00")[:-1]
+        return w
+    return v
+
+
 def build(recipe):
     cls = cls_by_name(recipe["cls"])
-    kw = dict(recipe["kw"])
+    kw = {k: fresh(v) for k, v in recipe["kw"].items()}
     if recipe.get("children") is not None:
         kw["children"] = tuple(build(c) for c in recipe["children"])
     return cls(**kw)
@@ -149,7 +158,7 @@ HOSTILE = ["", "ok", "OK", "oK", "indi.message.const", "None", "__main__", "Stat
            "READ_ONLY", "On ", " On", "on", "yes", "True", "1", "zz", "Neverr", "rw,ro", "é", "\U0001d11e",
            "<&>", '"\'', "__doc__", "builtins", "indi.message.const.State"]
 
-TEXTS = ["", "a", "1", "x y", "<&>\"'", "é\U0001d11e", "line1\nline2", "12.5", "-0:30", "Ok", "On"]
+TEXTS = ["", "a", "1", "x y", "<&>\"'", "é\U0001d11e", "line1\nline2", "12.5", "-0:30", "Ok", "On", "10 \u212b", "e\u0301"]
 
 PARTS = {
     "defText": ("indi.message.def_parts.DefText", {"name": "e", "label": "L"}, "free"),
